@@ -23,10 +23,18 @@ checks = {
    text="Parser level: grammar-valid documents of the six streaming parsers are served by a simulated line-buffered peer that releases the next line only after it has been handed every item completed by the lines released so far; a read() while an item is owed is a deadlock of that protocol (= waiting for bytes beyond the completing line). Reader level: on seeded operation histories the source's call log is checked for exactly one successful read per refill, no read when buffered data suffices, none after EOF/error.",
    note="Trusted: item completion offsets from the generators (validated against the number of handed-out items), the peer, the source log.",
    tech="deterministic simulation: two-party lock-step protocol between a simulated line-buffered producer and the real streaming parsers; read-call accounting on the simulated source"),
+ "C10": dict(cat="exploration", ref="DESIGN.md §4 C10",
+   text="Seeded streams (never materialised) of 8..128 x the bound are pushed through the real cnf/wcnf/gcnf/btor2/aag/aig streaming parsers under seeded chunk sizes (1..16384) and read-size policies (full, one line per read, one byte, random, Interrupted); a counting allocator with per-thread counters observes the peak live heap at every item; oracle: peak - baseline <= 16*chunk + 32*max_item + 64 KiB, independent of the stream length. Streams contain bursts of up to 2*10^5 consecutive comment-only / blank-only / mixed filler lines.",
+   note="Trusted: the counting allocator (wraps System), the bound's constants (>= 2x slack over the reader's own policy; a leak must grow by more than 1/8 byte per streamed byte to be seen at the minimum stream length).",
+   tech="deterministic simulation: unbounded generated source + counting allocator, peak live heap checked against a stream-length-independent bound at every item"),
  "C11": dict(cat="exploration", ref="DESIGN.md §4 C11",
    text="Seeded search over operation histories x sink behaviours (accept-all, short writes, Interrupted, Ok(0), errors at any call) x buffer capacities (0..300 via the verif hook, and the shipped 16 KiB) on the real DeferredWriter, checked step by step against a byte-stream model and the sink's call log; the real format writers are part of the workload. Evidence, not proof.",
    note="Trusted: std::fmt for expected integer text, std::io::Write::write_all, the model. Failing-sink 'selection' clause is a subsequence match over random payload bytes (see evidence assumptions).",
    tech="deterministic simulation: seeded operation histories on the real writer over a simulated Write seam with injected short writes / EINTR / errors, reference byte-stream model"),
+ "C14": dict(cat="exploration", ref="DESIGN.md §4 C14",
+   text="Operation histories of C02 and C11 extended with crash operations: advance/advance_with_buf past the buffer (documented panic, caught, object used again), sources that claim more bytes than offered or panic, sinks that lie or panic. Oracle 1 (both native builds): after every caught panic the reference model still matches (buf_len checked before buf() is touched), nothing reaches the sink that was not written, and a 64-byte red zone behind every heap block (harness allocator) is intact. Oracle 2: the same kinds of histories plus scanner cases and parser drives under Miri in 16 parallel interpreter processes; any 'Undefined Behavior' report is a violation.",
+   note="Trusted: Miri (stands in for the AddressSanitizer named in the property and is stricter), the red-zone allocator, the models of C02/C11. Miri runs are few (hundreds per quick run, thousands per thorough run) because the interpreter is slow.",
+   tech="deterministic simulation with crash injection (caught panics, lying/panicking Read and Write), reference model after each crash; Miri and allocator red zones as memory oracles"),
  "C13": dict(cat="exploration", ref="DESIGN.md §4 C13",
    text="Seeded search over byte strings x all 12 integer types x both scanner families x scan offsets x every amount of already-buffered data (which selects the 8-byte or the byte-wise path) x read plans for the remainder; the *_multi and the simple variant are both run on a real DeferredReader over the simulated source and compared with a decimal-string reference and with each other. The 8-byte kernel is sampled (kernel-sweep mode), the evidence reports how many of the 2305 (digit count, terminator byte) cases were hit.",
    note="Trusted: the decimal-string reference (~40 lines), std's integer Display. Exhaustive enumeration of the kernel is a different technique and is not claimed.",
@@ -48,7 +56,7 @@ import sys
 sel = sys.argv[1:] or list(checks)
 m = {
  "version": 1,
- "setup_cmd": "cd /verif/sim && CARGO_NET_OFFLINE=true cargo build --offline --profile simdbg && CARGO_NET_OFFLINE=true cargo build --offline --profile simrel",
+ "setup_cmd": "cd /verif/sim && CARGO_NET_OFFLINE=true cargo build --offline --profile simdbg && CARGO_NET_OFFLINE=true cargo build --offline --profile simrel && (CARGO_NET_OFFLINE=true cargo +nightly miri run --offline --release --quiet --target-dir /verif/target/miri -- miri-noop || true)",
  "hooks": {
    "guard": "verif-hooks",
    "enable": "cargo feature `verif-hooks` of the flussab crate (off by default); switched on by the path dependency in /verif/sim/Cargo.toml. It only adds DeferredWriter::verif_with_capacity.",
